@@ -252,6 +252,20 @@ pub fn run_case(case: &J, modules: &HashMap<PathBuf, String>, outdir: &Path) -> 
     };
     obs.insert("compile".into(), json!("ok"));
     if mode == "compile" || mode == "both" && case.get("run").and_then(|r| r.as_bool()) != Some(true) {
+        if early_sink {
+            // compile-time events (optimizer rewrites, assembled instructions) of a compile-only case
+            let events = verif::take();
+            let p = outdir.join(format!("trace_{}.ndjson", id.replace(['/', ' '], "_")));
+            let mut s = String::new();
+            for e in &events {
+                s.push_str(e);
+                s.push('\n');
+            }
+            let _ = std::fs::write(&p, s);
+            obs.insert("events".into(), json!(p.to_string_lossy()));
+            obs.insert("nevents".into(), json!(events.len()));
+            verif::reset();
+        }
         return J::Object(obs);
     }
 
